@@ -247,12 +247,20 @@ class Disk:
                     raise
                 continue
 
-            with writer:
-                size = 0
-                for chunk in iterator:
-                    size += len(chunk)
-                    writer.write(chunk)
-                return size
+            try:
+                with writer:
+                    size = 0
+                    for chunk in iterator:
+                        size += len(chunk)
+                        writer.write(chunk)
+                    return size
+            except BaseException:
+                # Do not leave a partially written file behind.
+                with cl.suppress(OSError):
+                    os.remove(full_path)
+                with cl.suppress(OSError):
+                    os.removedirs(full_dir)
+                raise
 
     def fetch(self, mode, filename, value, read):
         """Convert fields `mode`, `filename`, and `value` from Cache table to
